@@ -839,6 +839,61 @@ def det_compact_length(rng):
     return out
 
 
+def det_colourmap(rng):
+    """colour-mapped server (8 bpp, palette of `count` cells): the automatic SetColourMapEntries on the
+    first update request and the public rfbSetClientColourMaps(first, n) with n <, =, > count and
+    first + n beyond the map; a client that keeps the server's format and one that sets a true-colour one"""
+    out = []
+    for count, calls in ((16, [(0, 0), (0, 8), (0, 16), (0, 17), (0, 256), (4, 16), (10, 300)]),
+                         (256, [(0, 256), (0, 255), (250, 10), (0, 257)]),
+                         (1, [(0, 1), (0, 2), (0, 0)]),
+                         (200, [(0, 100), (100, 200), (0, 1000)])):
+        for truecolour_client in (False, True):
+            g = Gen(rng)
+            g.screen(37, 23, 1, maxrects=50, cmap=count)
+            i = g.connect(rng.choice([3, 8]))
+            if truecolour_client:
+                g.setpf(i, (8, 8, 0, 1, 7, 7, 3, 0, 3, 6))
+            g.setenc(i, [rng.choice([RAW, HEXTILE, RRE, ZRLE])])
+            g.req(i, 0)                      # colour-map client: SetColourMapEntries(0, count) precedes the update
+            for first, n in calls:
+                g.op("setcmaps %d %d" % (first, n))
+                g.op("bell")
+                g.draw(1, 1, 9, 9, mode=3)
+                g.req(i, 1)
+            out.append((g.text(), {"det-colourmap"}, "det_colourmap"))
+    return out
+
+
+def det_copy_then_shrink(rng):
+    """a copy is scheduled and the framebuffer is replaced by a SMALLER one before the copy was sent, while
+    the client's incremental request for the old geometry is still unserved: no CopyRect (source or
+    destination) may lie outside the size announced by NewFBSize / ExtDesktopSize"""
+    out = []
+    for (w, h), (nw, nh), sizecap in (((64, 48), (32, 24), NEWFBSIZE), ((200, 150), (97, 97), EXTDESKTOPSIZE),
+                                       ((97, 97), (64, 48), NEWFBSIZE), ((64, 48), (64, 24), NEWFBSIZE),
+                                       ((64, 48), (200, 150), NEWFBSIZE)):
+        for enc in (RAW, HEXTILE):
+            g = Gen(rng)
+            g.screen(w, h, rng.choice([1, 2, 4]), maxrects=rng.choice([0, 50]))
+            i = g.connect(8)
+            g.setenc(i, [enc, COPYRECT, sizecap, RICHCURSOR])
+            g.req(i, 0)
+            g.req(i, 1)                       # stays unserved: nothing is pending
+            cw, ch = w // 3, h // 3
+            x, y = w - cw - 2, h - ch - 2     # destination in the bottom right corner, source 10 px up-left
+            g.op("copyresize %d %d %d %d %d %d %d %d" % (x, y, cw, ch, 10, 8, nw, nh))
+            g.w, g.h = nw, nh
+            g.known[i] = (nw, nh)
+            g.safe[i] = (min(w, nw), min(h, nh))
+            g.op("pump")
+            g.req(i, 1)
+            g.draw(0, 0, 5, 5)
+            g.req(i, 1)
+            out.append((g.text(), {"det-copyshrink"}, "det_copy_then_shrink"))
+    return out
+
+
 def det_extdesktop(rng):
     """ExtDesktopSize with 0, 1, many screens, a failing screen hook, every SetDesktopSize result code"""
     out = []
@@ -1037,7 +1092,8 @@ def run(ctx):
         for p in sorted(glob.glob(os.path.join(common.VERIF, "corpus", "C03", "*.ops"))):
             cases.append((open(p).read(), {"corpus"}, "corpus:" + os.path.basename(p)))
         cases += det_tight_boundary(ctx.rng) + det_dropcap(ctx.rng) + det_handshake(ctx.rng) + \
-            det_flush(ctx.rng) + det_extdesktop(ctx.rng) + det_scaled_count(ctx.rng) + det_compact_length(ctx.rng)
+            det_flush(ctx.rng) + det_extdesktop(ctx.rng) + det_scaled_count(ctx.rng) + det_compact_length(ctx.rng) + \
+            det_colourmap(ctx.rng) + det_copy_then_shrink(ctx.rng)
         n = 200 if ctx.tier == "quick" else 3000
         for _ in range(n):
             f = pick_gen(ctx.rng)
